@@ -71,6 +71,15 @@ def judge(case, d, model):
                 info['modulo_labels'] = True
             else:
                 bad.append(('text-differs-after-scan', 'MIR_output of the scanned module differs from the text it was scanned from'))
+        # the module scanned from the text IS the module that was printed: every operand field (alias and nonalias
+        # separately, scale with an index, displacement, type), every signature (sizes of blk / rblk parameters),
+        # variable, data element, compared through the API structures, not through a second MIR_output
+        s0 = K.text_of(d, 'S0')
+        if s0 is not None and 'S2' in d:
+            c0, c2 = K.canon_struct(s0, True), K.canon_struct(K.text_of(d, 'S2', s0), True)
+            if c0 != c2:
+                bad.append(('structure-differs-after-scan', 'the module scanned from MIR_output text differs structurally from the '
+                            'module printed: ' + K.first_diff(c0, c2)))
         if d.get('SC2') != 'ok' or d.get('T3') != '=':
             bad.append(('not-a-fixpoint', 'the second print/scan round changes the text again (%s)' % d.get('SC2')))
         if 'X0' in d and d.get('X2') != d.get('X0'):
@@ -91,6 +100,12 @@ def judge(case, d, model):
             bad.append(('tie:scanner-accepts', 'model scanner and MIR_scan_string disagree on acceptance: %s vs %s' % (model.get('SC'), sc)))
         elif sc == 'ok' and K.text_of(model, 'T2', m0) != K.text_of(d, 'T2', t0):
             bad.append(('tie:scanner', 'model scanner and MIR_scan_string build different modules from the same text'))
+        elif 'S0' in model and 'S0' in d and model['S0'] != d['S0']:
+            bad.append(('tie:structure', 'the context built through the API is not the described one (model AST vs API structures): '
+                        + K.first_diff(K.text_of(model, 'S0'), K.text_of(d, 'S0'))))
+        elif sc == 'ok' and 'S2' in model and 'S2' in d and K.text_of(model, 'S2', K.text_of(model, 'S0')) != K.text_of(d, 'S2', K.text_of(d, 'S0')):
+            bad.append(('tie:scanner-structure', 'model scanner and MIR_scan_string build structurally different modules from the same '
+                        'text: ' + K.first_diff(K.text_of(model, 'S2', K.text_of(model, 'S0')), K.text_of(d, 'S2', K.text_of(d, 'S0')))))
         elif sc == 'ok' and 'TN2' in model and d.get('TN2') != model.get('TN2'):
             bad.append(('tie:temp-counters', 'last_temp_item_num after the scan differs from the model (process_reserved_name): '
                         '%s vs %s' % (d.get('TN2'), model.get('TN2'))))
@@ -125,6 +140,7 @@ def run(chk):
     sigs += [None] * len(gen)
     r1, rm = run_cases(exes, cases)
     nfail = rejected = 0
+    failures = []
     for case, sig, a, m in zip(cases, sigs, r1, rm):
         ks = K.stmt_kinds(case)
         chk.count(case, nontrivial=ks.get('insn', 0) + ks.get('data', 0) >= 3)
@@ -163,21 +179,33 @@ def run(chk):
             continue
         chk.dist('outcome', 'fail')
         nfail += 1
-        if nfail > 8:
-            continue
-        cls, what = bad[0]
-        if sig is None and not cls.startswith('tie:') and len(case) < 60000 and nfail <= 2:
-            def fails(c):
-                x1, xm = run_cases(exes, [c], which=('raw',))
-                return any(s == cls for s, _ in judge(c, x1[0], xm[0])[0])
-            small = K.shrink_case(case, fails, max_steps=60)
-        else:
-            small = case
-        x1, xm = run_cases(exes, [small])
-        signature = sig or (cls + ':' + hashlib.sha1(small.encode()).hexdigest()[:8])
-        chk.finding(signature, dict(case=small, failure=cls, impl={k: v[:3000] for k, v in x1[0].items()},
-                                    model={k: v[:3000] for k, v in xm[0].items()}, original=case[:4000]),
-                    'C10 %s: %s' % (cls, what), no_input=cls.startswith('tie:'))
+        failures.append((case, sig, bad))
+    # Concrete failing inputs first; a case on which only the tie (model vs implementation) breaks is reported as
+    # "no-failing-input-found" only when the search found no concrete failing input in this run.
+    concrete = [f for f in failures if not f[2][0][0].startswith('tie:')]
+    tie_only = [f for f in failures if f[2][0][0].startswith('tie:')]
+    reported = 0
+    for group in (concrete, tie_only):
+        if group is tie_only and reported > 0:
+            if tie_only:
+                chk.notes.append('tie disagreements on %d more cases (first: %s), not reported separately: concrete failing inputs '
+                                 'were found' % (len(tie_only), tie_only[0][2][0][0]))
+            break
+        for nth, (case, sig, bad) in enumerate(group[:8]):
+            cls, what = bad[0]
+            if sig is None and not cls.startswith('tie:') and len(case) < 60000 and nth < 2:
+                def fails(c):
+                    x1, xm = run_cases(exes, [c], which=('raw',))
+                    return any(s == cls for s, _ in judge(c, x1[0], xm[0])[0])
+                small = K.shrink_case(case, fails, max_steps=60)
+            else:
+                small = case
+            x1, xm = run_cases(exes, [small])
+            signature = sig or (cls + ':' + hashlib.sha1(small.encode()).hexdigest()[:8])
+            if chk.finding(signature, dict(case=small, failure=cls, impl={k: v[:3000] for k, v in x1[0].items()},
+                                           model={k: v[:3000] for k, v in xm[0].items()}, original=case[:4000]),
+                           'C10 %s: %s' % (cls, what), no_input=cls.startswith('tie:')):
+                reported += 1
     # erroneous text: MIR_scan_string may reject it, it must not crash (corpus/c10_scan.txt, found while auditing: C10-7)
     raw_texts = [l for _, l in K.read_corpus('c10_scan.txt')]
     if raw_texts:
